@@ -4,6 +4,7 @@
 //! Case lines (lists comma separated, `-` = empty list):
 //!   get <dims> <idx> | at <vec|slice|new|read> <dims> <idx> | ctor <vec|slice|new|read> <dims> <len> | iter <dims>
 //!   eq <dimsA> <dimsB> <dataA> <dataB> | write <i64|str> <dims> <data> | rt <i64|str> <chunk> <dims> <data>
+//!   rs <i64|str> <chunk> <lead> ; t <dims> <data> <seps> ; k <tok> <sep> ; ...   several values read from ONE reader (see run_rs)
 //!   h <D> ; op ; op ; ...   a history over four `Tensor<i64, D>` variables (slots 0..3), one observation per op:
 //!       mk s <dims> <start> (from_vec(dims, start..)) | cl s r (s = r.clone()) | cf s r (s.clone_from(&r)) | eq s r |
 //!       dims s | dim s i | get s <idx> | rd s <idx> | wr s <idx> v (then all cells) | it s | w s (Writable bytes)
@@ -1223,6 +1224,113 @@ fn run_ghist_d<const D: usize>(ty: &str, ops: &[&str]) -> String {
     }
 }
 
+// ---- several values read from ONE reader: `rs <ty> <chunk> <lead> ; t <dims> <data> <seps> ; k <tok> <sep> ; …` ----
+// The input is `lead` followed by every element / token followed by its own separator (codes over s = blank,
+// n = newline, t = tab, r = CR; `-` = nothing, only after the very last token).  One `Reader` over that input reads
+// the items in order: `Tensor::read` for `t` items (each with its own rank and shape), `reader.read::<T>()` for `k`.
+
+fn sep_bytes(code: &str) -> Option<Vec<u8>> {
+    if code == "-" {
+        return Some(vec![]);
+    }
+    code.bytes()
+        .map(|c| match c {
+            b's' => Some(b' '),
+            b'n' => Some(b'\n'),
+            b't' => Some(b'\t'),
+            b'r' => Some(b'\r'),
+            _ => None,
+        })
+        .collect()
+}
+
+fn rs_read_t<T: Readable + std::fmt::Display, const D: usize>(dims: &[usize], rd: &mut Reader) -> String {
+    let u = Tensor::<T, D>::read(arr::<D>(dims).unwrap(), rd);
+    format!("t{}{}", show_list(u.dims().iter()), show_list(u.iter()))
+}
+
+fn run_rs<T: Readable + std::fmt::Display + std::str::FromStr>(hdr: &[&str], parts: &[&str], is_str: bool) -> String {
+    let chunk: usize = match hdr[2].parse() {
+        Ok(c) => c,
+        Err(_) => return INVALID.to_string(),
+    };
+    let mut text = match sep_bytes(hdr[3]) {
+        Some(b) => b,
+        None => return INVALID.to_string(),
+    };
+    if parts.is_empty() || parts.len() > 16 {
+        return INVALID.to_string();
+    }
+    let valid = |tok: &str| -> Option<String> {
+        if is_str {
+            if tok.is_empty() { None } else { Some(tok.to_string()) }
+        } else {
+            tok.parse::<i64>().ok().map(|v| v.to_string())
+        }
+    };
+    // (shape or None for a plain token); pieces = (canonical token, separator)
+    let mut items: Vec<Option<Vec<usize>>> = vec![];
+    let mut pieces: Vec<(String, Vec<u8>)> = vec![];
+    for part in parts {
+        let t: Vec<&str> = part.split_whitespace().collect();
+        match (t.first().copied(), t.len()) {
+            (Some("t"), 4) => {
+                let dims = match parse_usizes(t[1]) {
+                    Some(d) => d,
+                    None => return INVALID.to_string(),
+                };
+                let data: Option<Vec<String>> = t[2].split(',').map(|x| valid(x)).collect();
+                let seps: Option<Vec<Vec<u8>>> = t[3].split(',').map(sep_bytes).collect();
+                let (data, seps) = match (data, seps) {
+                    (Some(a), Some(b)) => (a, b),
+                    _ => return INVALID.to_string(),
+                };
+                let n: usize = dims.iter().product();
+                if dims.contains(&0) || dims.len() > 4 || n != data.len() || seps.len() != data.len() || data.len() > 256 {
+                    return INVALID.to_string();
+                }
+                pieces.extend(data.into_iter().zip(seps));
+                items.push(Some(dims));
+            }
+            (Some("k"), 3) => {
+                let (tok, sep) = match (valid(t[1]), sep_bytes(t[2])) {
+                    (Some(a), Some(b)) => (a, b),
+                    _ => return INVALID.to_string(),
+                };
+                pieces.push((tok, sep));
+                items.push(None);
+            }
+            _ => return INVALID.to_string(),
+        }
+    }
+    if pieces[..pieces.len() - 1].iter().any(|p| p.1.is_empty()) {
+        return INVALID.to_string();
+    }
+    for (tok, sep) in &pieces {
+        text.extend_from_slice(tok.as_bytes());
+        text.extend_from_slice(sep);
+    }
+    let r = catch(|| {
+        let mut rd = Reader::new(Box::new(Chunked { data: text, pos: 0, chunk }));
+        let mut obs: Vec<String> = vec![];
+        for it in &items {
+            obs.push(match it {
+                Some(dims) => match dims.len() {
+                    0 => rs_read_t::<T, 0>(dims, &mut rd),
+                    1 => rs_read_t::<T, 1>(dims, &mut rd),
+                    2 => rs_read_t::<T, 2>(dims, &mut rd),
+                    3 => rs_read_t::<T, 3>(dims, &mut rd),
+                    _ => rs_read_t::<T, 4>(dims, &mut rd),
+                },
+                None => format!("k={}", rd.read::<T>()),
+            });
+        }
+        obs.push(format!("eof={}", rd.is_eof()));
+        obs.join(" ; ")
+    });
+    out1(&res(r))
+}
+
 fn run_case(line: &str) -> String {
     let toks: Vec<&str> = line.split_whitespace().collect();
     if toks.len() < 2 {
@@ -1240,6 +1348,18 @@ fn run_case(line: &str) -> String {
             "2" => run_ghist_d::<2>(hdr[2], &parts[1..]),
             "3" => run_ghist_d::<3>(hdr[2], &parts[1..]),
             "4" => run_ghist_d::<4>(hdr[2], &parts[1..]),
+            _ => INVALID.to_string(),
+        };
+    }
+    if toks[0] == "rs" {
+        let parts: Vec<&str> = line.split(';').map(|p| p.trim()).collect();
+        let hdr: Vec<&str> = parts[0].split_whitespace().collect();
+        if hdr.len() != 4 {
+            return INVALID.to_string();
+        }
+        return match hdr[1] {
+            "i64" => run_rs::<i64>(&hdr, &parts[1..], false),
+            "str" => run_rs::<String>(&hdr, &parts[1..], true),
             _ => INVALID.to_string(),
         };
     }
@@ -1581,6 +1701,62 @@ fn gen(args: &Args, emit: &mut dyn FnMut(String), st: &mut Stats) {
                     st.bump(&format!("rt_chunk_{}", c));
                 }
             }
+        }
+    }
+
+    // (4b) several values read from ONE reader over one input: tensors of different ranks / shapes and plain tokens,
+    //      every element followed by its own random whitespace (blank / newline / tab / CR-LF, one or several), so a
+    //      tensor ends in the middle of a line, at a line end or before blank lines, and the next value starts right there
+    {
+        const SEPS: [&str; 12] = ["s", "s", "s", "n", "n", "ss", "sn", "ns", "nn", "t", "rn", "nsn"];
+        let count = if thorough { 6000 } else if debug { 150 } else { 500 };
+        for i in 0..count {
+            let ty = if i % 3 == 2 { "str" } else { "i64" };
+            let k = 2 + rng.below(4) as usize;
+            let mut parts: Vec<String> = vec![];
+            for j in 0..k {
+                let last = j + 1 == k;
+                let elem = |rng: &mut SplitMix64| -> String {
+                    if ty == "str" {
+                        rand_str_elem(rng).replace(';', ":").replace('|', "!")
+                    } else {
+                        rand_i64_elem(rng).to_string()
+                    }
+                };
+                if j > 0 && rng.chance(1, 4) {
+                    let sep = if last && rng.chance(1, 3) { "-" } else { *rng.pick(&SEPS) };
+                    parts.push(format!("k {} {}", elem(&mut rng), sep));
+                    st.bump("rs_token_items");
+                    continue;
+                }
+                let rank = rng.below(5) as usize;
+                let mut dims: Vec<usize> = vec![];
+                let mut n = 1usize;
+                for _ in 0..rank {
+                    let d = 1 + rng.below(if rank <= 2 { 5 } else { 3 }) as usize;
+                    dims.push(d);
+                    n *= d;
+                }
+                let data: Vec<String> = (0..n).map(|_| elem(&mut rng)).collect();
+                let mut seps: Vec<String> = (0..n).map(|_| rng.pick(&SEPS).to_string()).collect();
+                // the end of the tensor: inside a line (blank), at a line end, or at the end of the input
+                let end = match rng.below(4) {
+                    0 | 1 => "s",
+                    2 => "n",
+                    _ => *rng.pick(&SEPS),
+                };
+                seps[n - 1] = if last && rng.chance(1, 3) { "-".to_string() } else { end.to_string() };
+                parts.push(format!("t {} {} {}", join(&dims), join_s(&data), join_s(&seps)));
+                st.bump(&format!("rs_tensor_rank{}", rank));
+            }
+            let lead = match rng.below(6) {
+                0 => "s",
+                1 => "n",
+                _ => "-",
+            };
+            let chunk = *rng.pick(&chunks);
+            emit(format!("rs {} {} {} ; {}", ty, chunk, lead, parts.join(" ; ")));
+            st.bump("rs_plans");
         }
     }
 
